@@ -13,7 +13,7 @@ macro_rules! cts_reject {
         #[kani::unwind($unw)]
         pub fn $name() {
             const B: usize = $b;
-            const M: usize = 2 * B + 1;
+            const M: usize = B + 2;
             let key: [u8; 2] = kani::any();
             let iv: [u8; B] = kani::any();
             let data: [u8; M] = kani::any();
@@ -23,16 +23,26 @@ macro_rules! cts_reject {
             let mk = || crate::common::mk::$ty(Uf::<$bs, $par>::with_key(key), &iv);
             let mut a = data;
             let mut o = dirty;
-            assert!(mk().encrypt(&mut a[..len]).is_err(), "message shorter than one block accepted");
-            assert!(mk().decrypt(&mut a[..len]).is_err(), "ciphertext shorter than one block accepted");
-            assert!(mk().encrypt_b2b(&data[..len], &mut o[..len]).is_err());
-            assert!(mk().decrypt_b2b(&data[..len], &mut o[..len]).is_err());
-            // unequal lengths (both at least one block)
+            // (case splits keep every length concrete inside its branch, so the length tests fold and
+            // only the rejecting path is executed symbolically)
+            split_on!(len, 0, B - 1, l => {
+                assert!(mk().encrypt(&mut a[..l]).is_err(), "message shorter than one block accepted");
+                assert!(mk().decrypt(&mut a[..l]).is_err(), "ciphertext shorter than one block accepted");
+                assert!(mk().encrypt_b2b(&data[..l], &mut o[..l]).is_err());
+                assert!(mk().decrypt_b2b(&data[..l], &mut o[..l]).is_err());
+            });
+            // unequal lengths (any pair, including both at least one block)
             let li: usize = kani::any();
             let lo: usize = kani::any();
             kani::assume(li <= M && lo <= M && li != lo);
-            assert!(mk().encrypt_b2b(&data[..li], &mut o[..lo]).is_err(), "b2b with unequal lengths accepted");
-            assert!(mk().decrypt_b2b(&data[..li], &mut o[..lo]).is_err(), "b2b with unequal lengths accepted");
+            split_on!(li, 0, M, li_ => {
+                split_on!(lo, 0, M, lo_ => {
+                    if li_ != lo_ {
+                        assert!(mk().encrypt_b2b(&data[..li_], &mut o[..lo_]).is_err(), "b2b with unequal lengths accepted");
+                        assert!(mk().decrypt_b2b(&data[..li_], &mut o[..lo_]).is_err(), "b2b with unequal lengths accepted");
+                    }
+                });
+            });
             let mut i = 0;
             while i < M {
                 assert!(a[i] == data[i] && o[i] == dirty[i], "rejected call modified a buffer");
@@ -64,8 +74,14 @@ macro_rules! blocks_b2b_reject {
             let no: usize = kani::any();
             kani::assume(ni <= N && no <= N && ni != no);
             let mut out = dirty;
-            let r = do_blocks_b2b!($dir, m, &blocks::<$mbs>(&input)[..ni], &mut blocks_mut::<$mbs>(&mut out)[..no]);
-            assert!(r.is_err(), "b2b with unequal block counts accepted");
+            split_on!(ni, 0, N, ni_ => {
+                split_on!(no, 0, N, no_ => {
+                    if ni_ != no_ {
+                        let r = do_blocks_b2b!($dir, m, &blocks::<$mbs>(&input)[..ni_], &mut blocks_mut::<$mbs>(&mut out)[..no_]);
+                        assert!(r.is_err(), "b2b with unequal block counts accepted");
+                    }
+                });
+            });
             let mut i = 0;
             while i < N * MB {
                 assert!(out[i] == dirty[i], "rejected call modified the output buffer");
@@ -91,24 +107,33 @@ macro_rules! oneshot_b2b_reject {
         #[kani::unwind($unw)]
         pub fn $name() {
             const B: usize = $b;
-            const M: usize = 2 * B + 1;
+            const M: usize = B + 2;
             let iv: [u8; B] = kani::any();
             let input: [u8; M] = kani::any();
             let dirty: [u8; M] = kani::any();
             let c = UfE::<$bs, U2>::with_key(kani::any());
-            let m = $krate::$ty::inner_iv_init(c.clone(), blk::<$bs>(&iv));
-            let n0 = calls();
             let li: usize = kani::any();
             let lo: usize = kani::any();
             kani::assume(li <= M && lo <= M && li != lo);
             let mut out = dirty;
-            assert!(do_oneshot_b2b!($dir, m, &input[..li], &mut out[..lo]).is_err(), "b2b with unequal lengths accepted");
+            let mut n0 = 0;
+            let mut n1 = 0;
+            split_on!(li, 0, M, li_ => {
+                split_on!(lo, 0, M, lo_ => {
+                    if li_ != lo_ {
+                        let m = $krate::$ty::inner_iv_init(c.clone(), blk::<$bs>(&iv));
+                        n0 = calls();
+                        assert!(do_oneshot_b2b!($dir, m, &input[..li_], &mut out[..lo_]).is_err(), "b2b with unequal lengths accepted");
+                        n1 = calls();
+                    }
+                });
+            });
             let mut i = 0;
             while i < M {
                 assert!(out[i] == dirty[i], "rejected call modified the output buffer");
                 i += 1;
             }
-            assert!(calls() == n0);
+            assert!(n1 == n0, "rejected call used the cipher");
             kani::cover!(true);
         }
     };
@@ -133,22 +158,29 @@ macro_rules! stream_b2b_reject {
             let mut sref = $mk(key, &iv);
             sref.apply_keystream(&mut r1);
             sref.apply_keystream(&mut r2);
-            // subject
-            let mut s = $mk(key, &iv);
-            let mut p1 = [0u8; 3];
-            s.apply_keystream(&mut p1);
+            // subject: the rejected calls (every unequal pair, case split) must leave output, position
+            // and the following keystream alone
             let li: usize = kani::any();
             let lo: usize = kani::any();
             kani::assume(li <= M && lo <= M && li != lo);
             let mut out = dirty;
-            assert!(s.apply_keystream_b2b(&input[..li], &mut out[..lo]).is_err(), "b2b with unequal lengths accepted");
+            let mut s = $mk(key, &iv);
+            let mut p1 = [0u8; 3];
+            s.apply_keystream(&mut p1);
+            split_on!(li, 0, M, li_ => {
+                split_on!(lo, 0, M, lo_ => {
+                    if li_ != lo_ {
+                        assert!(s.apply_keystream_b2b(&input[..li_], &mut out[..lo_]).is_err(), "b2b with unequal lengths accepted");
+                    }
+                });
+            });
+            let mut p2 = input;
+            s.apply_keystream(&mut p2);
             let mut i = 0;
             while i < M {
                 assert!(out[i] == dirty[i], "rejected call modified the output buffer");
                 i += 1;
             }
-            let mut p2 = input;
-            s.apply_keystream(&mut p2);
             let mut i = 0;
             while i < M {
                 assert!(p2[i] == r2[i], "rejected call disturbed the keystream position");
@@ -175,13 +207,19 @@ macro_rules! padded_reject {
             kani::assume(len <= M && len % B != 0);
             let mut a = data;
             let mut o = dirty;
-            assert!($krate::Decryptor::inner_iv_init(c.clone(), blk::<$ivbs>(&iv)).decrypt_padded::<Pkcs7>(&mut a[..len]).is_err(),
-                "padded decryption of a non-multiple length accepted");
-            assert!($krate::Decryptor::inner_iv_init(c.clone(), blk::<$ivbs>(&iv)).decrypt_padded_b2b::<Pkcs7>(&data[..len], &mut o[..len]).is_err());
+            split_on!(len, 0, M, l => {
+                if l % B != 0 {
+                    assert!($krate::Decryptor::inner_iv_init(c.clone(), blk::<$ivbs>(&iv)).decrypt_padded::<Pkcs7>(&mut a[..l]).is_err(),
+                        "padded decryption of a non-multiple length accepted");
+                    assert!($krate::Decryptor::inner_iv_init(c.clone(), blk::<$ivbs>(&iv)).decrypt_padded_b2b::<Pkcs7>(&data[..l], &mut o[..l]).is_err());
+                }
+            });
             // output shorter than input
             let l2: usize = kani::any();
             kani::assume(l2 < M);
-            assert!($krate::Decryptor::inner_iv_init(c.clone(), blk::<$ivbs>(&iv)).decrypt_padded_b2b::<Pkcs7>(&data[..], &mut o[..l2]).is_err());
+            split_on!(l2, 0, M - 1, l => {
+                assert!($krate::Decryptor::inner_iv_init(c.clone(), blk::<$ivbs>(&iv)).decrypt_padded_b2b::<Pkcs7>(&data[..], &mut o[..l]).is_err());
+            });
             let mut i = 0;
             while i < M {
                 assert!(a[i] == data[i] && o[i] == dirty[i], "rejected call modified a buffer");
@@ -205,10 +243,16 @@ macro_rules! from_slices_case {
             let iv: [u8; IVL + 3] = kani::any();
             let kl: usize = kani::any();
             let il: usize = kani::any();
-            kani::assume(kl <= 5 && il <= IVL + 3);
-            let r = <$ty>::new_from_slices(&key[..kl], &iv[..il]);
-            assert!(r.is_ok() == (kl == 2 && il == IVL), "new_from_slices accepts exactly the right lengths");
-            kani::cover!(r.is_ok());
+            const ILO: usize = if IVL > 2 { IVL - 2 } else { 0 };
+            kani::assume(kl <= 4 && il >= ILO && il <= IVL + 2);
+            let mut ok = false;
+            split_on!(kl, 0, 4, kl_ => {
+                split_on!(il, ILO, IVL + 2, il_ => {
+                    ok = <$ty>::new_from_slices(&key[..kl_], &iv[..il_]).is_ok();
+                });
+            });
+            assert!(ok == (kl == 2 && il == IVL), "new_from_slices accepts exactly the right lengths");
+            kani::cover!(ok);
             kani::cover!(kl == 2 && il == IVL + 1);
             kani::cover!(kl == 2 && il + 1 == IVL);
             kani::cover!(kl == 3 && il == IVL);
@@ -223,9 +267,12 @@ macro_rules! from_slice_case {
             let key: [u8; 5] = kani::any();
             let kl: usize = kani::any();
             kani::assume(kl <= 5);
-            let r = <$ty>::new_from_slice(&key[..kl]);
-            assert!(r.is_ok() == (kl == 2));
-            kani::cover!(r.is_ok());
+            let mut ok = false;
+            split_on!(kl, 0, 5, kl_ => {
+                ok = <$ty>::new_from_slice(&key[..kl_]).is_ok();
+            });
+            assert!(ok == (kl == 2));
+            kani::cover!(ok);
             kani::cover!(kl == 1);
         }
     };
@@ -242,17 +289,17 @@ macro_rules! stream_total {
             const NMAX: usize = $nmax;
             let iv: [u8; B] = kani::any();
             let c = UfE::<$bs, U2>::with_key(kani::any());
-            let mut core = $core(c, blk::<$bs>(&iv));
             let pos: $ct = kani::any();
-            core.set_block_pos(pos);
-            let _ = core.remaining_blocks();
-            let mut s = StreamCipherCoreWrapper::from_core(core);
             let data: [u8; NMAX] = kani::any();
             let mut buf = data;
             let n: usize = kani::any();
             kani::assume(n <= NMAX);
             let mut ok = true;
             split_on!(n, 0, NMAX, n_ => {
+                let mut core = $core(c.clone(), blk::<$bs>(&iv));
+                core.set_block_pos(pos);
+                let _ = core.remaining_blocks();
+                let mut s = StreamCipherCoreWrapper::from_core(core);
                 ok = s.try_apply_keystream(&mut buf[..n_]).is_ok();
                 let _ = s.try_current_pos::<u32>();
                 let _ = s.try_current_pos::<u128>();
@@ -277,7 +324,7 @@ fn core_ctr64be<C: cipher::BlockCipherEncrypt<BlockSize = U8>>(c: C, iv: &Array<
 fn core_ctr64le<C: cipher::BlockCipherEncrypt<BlockSize = U8>>(c: C, iv: &Array<u8, U8>) -> ctr::CtrCore<C, ctr::flavors::Ctr64LE> { ctr::CtrCore::inner_iv_init(c, iv) }
 fn core_ctr128be<C: cipher::BlockCipherEncrypt<BlockSize = U16>>(c: C, iv: &Array<u8, U16>) -> ctr::CtrCore<C, ctr::flavors::Ctr128BE> { ctr::CtrCore::inner_iv_init(c, iv) }
 fn core_ctr128le<C: cipher::BlockCipherEncrypt<BlockSize = U16>>(c: C, iv: &Array<u8, U16>) -> ctr::CtrCore<C, ctr::flavors::Ctr128LE> { ctr::CtrCore::inner_iv_init(c, iv) }
-fn core_belt<C: cipher::BlockCipherEncrypt<BlockSize = U16>>(c: C, iv: &Array<u8, U16>) -> belt_ctr::BeltCtrCore<C> { belt_ctr::BeltCtrCore::inner_iv_init(c, iv) }
+fn core_belt<C: cipher::BlockCipherEncrypt<BlockSize = U16>>(c: C, iv: &Array<u8, U16>) -> belt_ctr::BeltCtrCore<C> { crate::common::belt_core(c, iv) }
 
 /// Total driver: CTS, all lengths 0..=M, one-byte blocks included: Ok iff len >= b, never panics.
 macro_rules! cts_total {
@@ -311,7 +358,7 @@ fn mk_ofb_b2(key: [u8; 2], iv: &[u8; 2]) -> ofb::Ofb<UfE<U2, U2>> { ofb::Ofb::ne
 fn mk_ctr32be_b4(key: [u8; 2], iv: &[u8; 4]) -> ctr::Ctr32BE<UfE<U4, U2>> { ctr::Ctr32BE::new(&key.into(), blk::<U4>(iv)) }
 fn mk_ctr64le_b8(key: [u8; 2], iv: &[u8; 8]) -> ctr::Ctr64LE<UfE<U8, U2>> { ctr::Ctr64LE::new(&key.into(), blk::<U8>(iv)) }
 fn mk_ctr128be_b16(key: [u8; 2], iv: &[u8; 16]) -> ctr::Ctr128BE<UfE<U16, U2>> { ctr::Ctr128BE::new(&key.into(), blk::<U16>(iv)) }
-fn mk_belt(key: [u8; 2], iv: &[u8; 16]) -> belt_ctr::BeltCtr<UfE<U16, U2>> { belt_ctr::BeltCtr::new(&key.into(), blk::<U16>(iv)) }
+fn mk_belt(key: [u8; 2], iv: &[u8; 16]) -> belt_ctr::BeltCtr<UfE<U16, U2>> { crate::common::belt_alias::<U2>(key, iv) }
 
 // ---- quick -----------------------------------------------------------------------------------
 cts_reject!(cts_reject_cbc_cs1_b4, 48, CbcCs1, U4, 4, U2);
